@@ -194,7 +194,8 @@ func (ctrler *GovCtrler) ValidateTrx(ctx *ctrlertypes.TrxContext) xerrors.XError
 			//check options
 			checkGovParams := &ctrlertypes.GovParams{}
 			for _, option := range txpayload.Options {
-				if err := json.Unmarshal(option, checkGovParams); err != nil {
+				// check the option exactly as `applyProposals` will read it.
+				if err := json.Unmarshal([]byte(hotfixOption(string(option))), checkGovParams); err != nil {
 					return xerrors.ErrInvalidTrxPayloadParams.Wrap(err)
 				}
 			}
@@ -410,14 +411,7 @@ func (ctrler *GovCtrler) applyProposals(height int64) ([]abytes.HexBytes, xerror
 				case proposal.PROPOSAL_GOVPARAMS:
 					newGovParams := &ctrlertypes.GovParams{}
 
-					//
-					// hotfix
-					strOpt := string(prop.MajorOption.Option())
-					if strings.HasSuffix(strOpt, `""}`) {
-						strOpt = strings.ReplaceAll(strOpt, `""}`, `"}`)
-					}
-					//
-					//
+					strOpt := hotfixOption(string(prop.MajorOption.Option()))
 
 					if err := json.Unmarshal([]byte(strOpt), newGovParams); err != nil {
 						ctrler.logger.Error("Apply proposal", "error", err, "option", string(prop.MajorOption.Option()))
@@ -443,6 +437,18 @@ func (ctrler *GovCtrler) applyProposals(height int64) ([]abytes.HexBytes, xerror
 	})
 
 	return applied, xerr
+}
+
+// hotfixOption rewrites an option document the way it is read when the proposal is applied.
+func hotfixOption(strOpt string) string {
+	//
+	// hotfix
+	if strings.HasSuffix(strOpt, `""}`) {
+		strOpt = strings.ReplaceAll(strOpt, `""}`, `"}`)
+	}
+	//
+	//
+	return strOpt
 }
 
 func (ctrler *GovCtrler) Commit() ([]byte, int64, xerrors.XError) {
